@@ -9,7 +9,7 @@ from facts import norm
 
 
 class Call:
-    __slots__ = ("fn", "node", "term", "name", "raw_def", "res", "args", "dest", "line", "ex", "target", "f")
+    __slots__ = ("fn", "node", "term", "name", "raw_def", "res", "args", "dest", "line", "ex", "target", "f", "_canon")
 
     def __init__(self, fn, node, term):
         self.fn = fn
@@ -25,11 +25,34 @@ class Call:
         self.line = term["ln"]
         self.ex = term.get("ex")
         self.target = term.get("t")
+        self._canon = None
+        #   a.min(b) / a.max(b) (Ord::min / Ord::max)  ==  cmp::min(a, b) / cmp::max(a, b)
+        if self.name in ("std::cmp::Ord::min", "std::cmp::Ord::max", "core::cmp::Ord::min", "core::cmp::Ord::max"):
+            self._canon = self.name
+            self.name = "std::cmp::" + self.name.rsplit("::", 1)[-1]
+        # library idioms with one meaning are given one name (the rules name the first spelling):
+        #   mem::take(&mut Option<T>) / mem::replace(&mut Option<T>, None)  ==  Option::take
+        if self.name in ("std::mem::take", "std::mem::replace", "core::mem::take", "core::mem::replace") and self.args:
+            p = self.args[0].get("m") or self.args[0].get("c")
+            ty = fn.locals[p[0]] if p and len(p) == 1 else ""
+            if ty.startswith("&mut std::option::Option<"):
+                is_none = True
+                if self.name.endswith("replace"):
+                    is_none = False
+                    if len(self.args) == 2:
+                        q = self.args[1].get("m") or self.args[1].get("c")
+                        d = fn.single_def(q[0]) if q and len(q) == 1 else None
+                        is_none = d is not None and d[1] == "assign" and d[2]["rv"]["r"] == "agg" and d[2]["rv"].get("var") == "None"
+                if is_none:
+                    self._canon = self.name
+                    self.name = "std::option::Option::take"
 
     @property
     def names(self):
         """all normalised names of the callee (declared + resolved)"""
         out = []
+        if self._canon:
+            out.append(self.name)
         for x in (self.res, self.raw_def):
             if x:
                 n = norm(x)
